@@ -5,7 +5,7 @@ import itertools
 import json
 import re
 
-from tools import astwire, c01_extract, c01_pipeline, fw, lexcorr
+from tools import astwire, c01_extract, c01_pipeline, c01_stress, fw, lexcorr
 from tools.fw import Disagreement, Failure, Report
 
 ID = "C01"
@@ -35,7 +35,10 @@ LEVEL_TEXT = (
     "substitutions of the corpus documents, depth-100 nests of every bracket kind, a stub-harness run over all 72 "
     "stage outcomes of graphql_impl, and graphql_sync/graphql over (source x variables x operation name x raising "
     "resolvers x request options) with a 48-class exception zoo whose formatted responses are judged by the Lean "
-    "response-format spec."
+    "response-format spec, plus deterministic stress families (every directive x argument shape x selection kind x "
+    "operation type; @stream/@defer on meta fields under object/interface/union parents; names, literals and variable "
+    "values with 4300..20000 digits or characters; flat chains of 200/1200/3000 fragment spreads, aliases, directives, "
+    "definitions; case-folding, empty, huge and non-str variable keys)."
 )
 LEVEL_NOTE = (
     "Trusted: Lean kernel; the hand-written models Gql/Syntax/Parser.lean, Gql/Text/CoordLexer.lean, "
@@ -68,6 +71,12 @@ ASSUMPTIONS = [
     "through the parse entry points and through graphql_sync)",
     "max_tokens is an int or None",
     "a GraphQLError instance whose own attributes were overwritten with ill-typed values after construction is outside the statement",
+    "non-str keys in variables are outside JSON and the dict[str, Any] annotation; they are generated and reported under their own "
+    "fingerprint graphql_sync-raises:non-str-variable-key (fixed by 5126d64)",
+    "a schema that declares @defer/@stream is refused by execute() for every request (configuration error): for that schema variant only "
+    "parse + validate are exercised",
+    "RecursionError is classified from the run: bracket nesting <= 100 and a fragment-spread chain deeper than 150 is the known finding "
+    "recursionerror:fragment-spread-chain-depth; bracket nesting > 100 is outside the statement; any other RecursionError is a violation",
     "resolver_raise_located_hostile describes located_error with repo_patches/F7_located_error_hostile_attrs.diff applied; the "
     "located_error correspondence picks the model variant (hardened / not) by a structural probe of located_error.py, the property "
     "oracle (nothing escapes, error at the field's path) is the same for both",
@@ -693,7 +702,13 @@ def explore(ctx) -> Report:
     # (c) pipeline
     n = 2000 if ctx.tier == "quick" and not ctx.escalate else (50000 if ctx.tier == "thorough" else 8000)
     pcases = c01_pipeline.gen_cases(ctx.seed, n)
-    for r in fw.pmap(_work_pipe, [(c, drv) for c in fw.chunked(pcases, fw.WORKERS * 2)]):
+    stress = c01_stress.stress_cases(ctx.seed, ctx.tier)
+    rep.stats["pipe:stress_cases"] = len(stress)
+    pcases = pcases + stress
+    # deal the cases round-robin: the expensive stress families (3000-element documents) must not share a worker
+    nch = fw.WORKERS * 3
+    pchunks = [c for c in (pcases[k::nch] for k in range(nch)) if c]
+    for r in fw.pmap(_work_pipe, [(c, drv) for c in pchunks]):
         rep.merge(r)
     rep.stats["pipe:cases"] = len(pcases)
     rep.stats["time:pipeline_s"] = round(time.time() - t0, 1)
@@ -713,7 +728,9 @@ def explore(ctx) -> Report:
         "of the corpus documents (both kitchen sinks, the introspection query, fragment-arguments and directives-on-directive-definitions "
         "documents, value/type/coordinate texts); depth-100 nests of every bracket kind; seeded random strings. pipeline: graphql_sync on "
         "(source x variables x operation name x raising resolvers) with a 48-entry exception zoo; 72 stage-outcome combinations of "
-        "graphql_impl with a stub harness; located_error over the zoo at three nullability chains. non-trivial = every case except the "
+        "graphql_impl with a stub harness; located_error over the zoo at three nullability chains; the stress families of tools/c01_stress.py "
+        "(directive-args, meta-fields, long-names, flat-chains, odd-keys; halved by seed parity in the quick tier, complete in the thorough tier). "
+        "non-trivial = every case except the "
         "empty string (parse) / cases with a raise, a parse/validation/coercion failure or errors (pipeline); distinct by construction "
         "for the exhaustive parts"
     )
